@@ -15,6 +15,7 @@ EXTENDS Plotfile, Pool
 
 CONSTANTS
   Names, MaxLev, MaxBox, MaxFile, W, SchedMode,
+  NNewSet,       \* numbers of components a recipe may add, e.g. {1, 2} or {10} (a per-species recipe with 'all')
   NamesOrder,    \* "kept_first" (repaired code) | "new_first" (mutant = original code)
   MapOrder       \* "disk" (the code) | "header" (mutant)
 
@@ -23,7 +24,8 @@ vvars == <<inp, cells, nnew, kept, serial, pc, lv, tasks, call, res, out, sched>
 
 ClassPattern == <<1, 2, 1, 2, 2, 1>>
 CellsOf(nb) == [b \in 1..nb |-> ClassPattern[b] + 1]
-NewNames(n) == [j \in 1..n |-> IF j = 1 THEN "new1" ELSE "new2"]
+NewNameTable == <<"new1", "new2", "new3", "new4", "new5", "new6", "new7", "new8", "new9", "new10">>
+NewNames(n) == [j \in 1..n |-> NewNameTable[j]]
 NoOut == [fields |-> <<>>, hdr |-> FALSE, lev |-> <<>>]
 
 \* kept lists: ordered, duplicate free, over the known names and one unknown name
@@ -55,7 +57,7 @@ Init ==
           /\ \A l \in 1..nl : Len(lays[l].file) = nbs[l]
           /\ cells = [l \in 1..nl |-> CellsOf(nbs[l])]
           /\ inp = SrcPlt("A", Names, cells, lays)
-  /\ nnew \in 1..2 /\ kept \in KeptLists /\ serial \in BOOLEAN
+  /\ nnew \in NNewSet /\ kept \in KeptLists /\ serial \in BOOLEAN
   /\ pc = "start" /\ lv = 0 /\ tasks = <<>> /\ call = NoCall /\ res = <<>> /\ out = NoOut /\ sched = <<>>
 
 MkTreeAndHeader ==
